@@ -25,10 +25,11 @@ import hashlib
 import itertools
 import os
 import time as _time
+import unicodedata
 import warnings
 
 from .core import exc_class, hx, unhx
-from .gitobj_common import gen_bytes as _gen_bytes_plain, gen_bytes_wide, splice_token
+from .gitobj_common import NFC_UNSTABLE, gen_bytes as _gen_bytes_plain, gen_bytes_wide, nfc_unstable_bytes, splice_token
 
 
 def gen_bytes(rng):
@@ -82,6 +83,12 @@ RULE = ("ExtID: type strings (plain, empty, with space / newline, non-ASCII = re
         "the tree under test, or a well-known neighbour ('swh:', 'https://', 'refs/tags/' ...), as prefix / suffix / infix / whole "
         "value; an origin that thereby starts with 'swh:' is either kept as the one legitimate refusal or turned into a near miss "
         "(' swh:', 'Swh:', 'swh;', 'swswh:' ...) that must stay accepted. "
+        "UNICODE NORMALISATION: about 4 % of every text value (authority url, fetcher name / version, format, origin; 2 % of "
+        "extid_type / payload_type, where non-ASCII is refused) and of every byte value (path, metadata, extid, payload: as UTF-8) "
+        "get text that is not stable under NFC / NFD / NFKC / NFKD (decomposed accents, ANGSTROM / OHM SIGN, CJK compatibility "
+        "ideographs, Hangul jamo, ligatures, EN QUAD, Greek question mark), every 12th case has one for sure; the manifest must carry "
+        "it unchanged, and for such cases the TWIN object - the same object with that one field rewritten in another normalisation "
+        "form - must have the documented manifest of ITS value, another manifest, another id, and compare unequal. "
         "non-trivial = at least one optional / context line; distinct = distinct case")
 TRUSTED = ["Python datetime arithmetic (aware datetime -> exact integer microseconds since the epoch, utcoffset) used to abstract a "
            "datetime as (epoch_us, offset_us)",
@@ -296,6 +303,58 @@ def splice_hex(rng, h):
     return splice_token(rng, bytes.fromhex(h), "bytes").hex() if rng.random() < SPLICE_P else h
 
 
+UNSTABLE_P = 0.04
+FORMS = ["NFC", "NFD", "NFKC", "NFKD"]
+TWIN_TEXT = ["url", "name", "version", "format", "origin"]
+TWIN_BYTES = ["metadata", "path"]
+
+
+def _insert(rng, v, t):
+    r = rng.random()
+    if r < 0.35:
+        return t + v
+    if r < 0.7:
+        return v + t
+    k = rng.randrange(len(v) + 1)
+    return v[:k] + t + v[k:]
+
+
+def unstable_txt(rng, v, p=UNSTABLE_P):
+    """a few % of the text values hold text that is not stable under Unicode normalisation (decomposed accents, ANGSTROM / OHM
+    SIGN, CJK compatibility ideographs, Hangul jamo, ligatures, EN QUAD ...): the manifest must carry it code point by code point"""
+    return _insert(rng, v, rng.choice(NFC_UNSTABLE)) if rng.random() < p else v
+
+
+def unstable_hex(rng, h, p=UNSTABLE_P):
+    return _insert(rng, bytes.fromhex(h), nfc_unstable_bytes(rng)).hex() if rng.random() < p else h
+
+
+def twin_candidates(c, text_fields, byte_fields):
+    """[field, form, twin value]: the value of a field rewritten in another Unicode normalisation form, when that differs (byte
+    fields: when they are valid UTF-8).  The twin is ANOTHER object: another manifest, another id."""
+    res = []
+    for f in text_fields:
+        v = c.get(f)
+        if not isinstance(v, str):
+            continue
+        for form in FORMS:
+            w = unicodedata.normalize(form, v)
+            if w != v and not (f == "origin" and w.startswith("swh:")):
+                res.append([f, form, w])
+    for f in byte_fields:
+        if c.get(f) is None:
+            continue
+        try:
+            v = bytes.fromhex(c[f]).decode("utf-8")
+        except UnicodeDecodeError:
+            continue
+        for form in FORMS:
+            w = unicodedata.normalize(form, v)
+            if w != v:
+                res.append([f, form, w.encode("utf-8").hex()])
+    return res
+
+
 def gen_id(rng):
     return bytes(rng.randrange(256) for _ in range(20)).hex()
 
@@ -394,6 +453,26 @@ def gen_emd(rng, k):
         c["origin"] = o
     if before != [c[f] for f in ("url", "name", "version", "format", "metadata", "origin", "path")]:
         c["spliced"] = True
+    # text that is not stable under Unicode normalisation, in every text field (and as UTF-8 in the byte fields)
+    forced = k % 12 == 7
+    for f in TWIN_TEXT:
+        if c[f] is not None and not (f == "origin" and c["bad"] == "swh_origin"):
+            c[f] = unstable_txt(rng, c[f])
+    for f in TWIN_BYTES:
+        if c[f] is not None:
+            c[f] = unstable_hex(rng, c[f])
+    if forced:
+        f = rng.choice([x for x in TWIN_TEXT + TWIN_TEXT + TWIN_BYTES if c[x] is not None and not (x == "origin" and c["bad"] == "swh_origin")])
+        if f in TWIN_TEXT:
+            c[f] = unstable_txt(rng, c[f] if rng.random() < 0.8 else "", 1.0)
+            cands = twin_candidates(c, [f], [])
+        else:
+            c[f] = unstable_hex(rng, c[f] if rng.random() < 0.5 else "", 1.0)
+            cands = twin_candidates(c, [], [f])
+    else:
+        cands = twin_candidates(c, TWIN_TEXT, TWIN_BYTES)
+    if cands and (forced or rng.random() < 0.5):
+        c["twin"] = rng.choice(cands)
     c["tz"] = TZ_POOL[k % len(TZ_POOL)]
     c["tz2"] = TZ_POOL[(k // 4 * 7 + 3) % len(TZ_POOL)] if k % 4 == 1 else None
     us = gen_instant(rng)
@@ -442,15 +521,20 @@ def gen_extid(rng, k):
     ptype = rng.choice(["disk-manifest", "", "p t", "n\nl", "sha1_git", "é", "c\rr", "l\r\n", "\x0c"]) if pm in (1, 2) else None
     payload = (bytes(rng.randrange(256) for _ in range(20)) if rng.random() < 0.6 else gen_bytes(rng)).hex() if pm in (1, 3) else None
     if ptype is not None:
-        ptype = splice_txt(rng, ptype)
+        ptype = unstable_txt(rng, splice_txt(rng, ptype), 0.02)      # non-ASCII: refused by .encode("ascii")
     if payload is not None:
-        payload = splice_hex(rng, payload)
-    return {"kind": "extid",
-            "type": splice_txt(rng, rng.choice(["hg-nodeid", "", "a b", "with\nnewline", "é", "tyépe", "nar-sha256", "x\n", " t",
-                                                "checksum-sha512", "cr\rlf", "a\r\nb", "v\x0bt\x0c", "t\tab", "n\x00ul"])),
-            "extid": splice_hex(rng, gen_bytes(rng).hex()), "ttype": CORE[(k // 6) % 5], "tid": gen_id(rng),
+        payload = unstable_hex(rng, splice_hex(rng, payload))
+    c = {"kind": "extid",
+            "type": unstable_txt(rng, splice_txt(rng, rng.choice(["hg-nodeid", "", "a b", "with\nnewline", "é", "tyépe", "nar-sha256", "x\n", " t",
+                                                "checksum-sha512", "cr\rlf", "a\r\nb", "v\x0bt\x0c", "t\tab", "n\x00ul"])), 0.02),
+            "extid": unstable_hex(rng, splice_hex(rng, gen_bytes(rng).hex()), 1.0 if k % 12 == 7 else UNSTABLE_P),
+            "ttype": CORE[(k // 6) % 5], "tid": gen_id(rng),
             "version": rng.choice([0, 0, 1, -1, 2**70, -2**70, rng.randrange(-1000, 1000)]),
             "ptype": ptype, "payload": payload, "tz": TZ_POOL[(k * 5 + 1) % len(TZ_POOL)], "routes": list(EXTID_ROUTES)}
+    cands = twin_candidates(c, [], ["extid", "payload"])
+    if cands:
+        c["twin"] = rng.choice(cands)
+    return c
 
 
 def gen(rng, tier):
@@ -473,7 +557,8 @@ def classify(c):
                     (c["ptype"] is not None, c["payload"] is not None), "half"),
                 "extid:nl-in-extid" if b"\n" in bytes.fromhex(c["extid"]) else "extid:no-nl"] + \
             (["extid:cr-in-extid"] if b"\r" in bytes.fromhex(c["extid"]) else []) + \
-            (["extid:cr-in-type"] if "\r" in c["type"] else []) + ["extid:route=" + r for r in c.get("routes", [])]
+            (["extid:cr-in-type"] if "\r" in c["type"] else []) + ["extid:route=" + r for r in c.get("routes", [])] + \
+            (["extid:normalisation-twin:%s:%s" % (c["twin"][0], c["twin"][1])] if c.get("twin") else [])
     us, off = c["date"]
     ks = ["emd", "emd:target=" + c["ttype"], "emd:ctx=%d" % sum(c[f] is not None for f in CTX_ORDER),
           "emd:" + ("before-epoch" if us < 0 else "after-epoch"),
@@ -494,6 +579,10 @@ def classify(c):
         ks.append("emd:date-range-" + c["range_end"])
     if c.get("spliced"):
         ks.append("emd:source-token-spliced")
+    if any(unicodedata.normalize("NFC", t) != t for t in [c["url"], c["name"], c["version"], c["format"], c["origin"] or ""]):
+        ks.append("emd:text-not-NFC")
+    if c.get("twin"):
+        ks.append("emd:normalisation-twin:%s:%s" % (c["twin"][0], c["twin"][1]))
     texts = [c["url"], c["name"], c["version"], c["format"], c["origin"] or ""]
     if any("\r" in t for t in texts):
         ks.append("emd:text-with-cr")
@@ -885,6 +974,12 @@ def _impl_emd(c):
             alts.append({"error": exc_class(e)})
     res["alts"] = alts
     res["routes"] = _emd_routes(c, o)
+    if c.get("twin") and c["twin"][2] != c[c["twin"][0]]:
+        try:
+            o2 = _build_emd(dict(c, **{c["twin"][0]: c["twin"][2]}), c["date"])
+            res["twin"] = {"id": o2.id.hex(), "manifest": git_objects.raw_extrinsic_metadata_git_object(o2).hex(), "eq": o2 == o}
+        except Exception as e:
+            res["twin"] = {"error": exc_class(e)}
     return res
 
 
@@ -949,6 +1044,12 @@ def impl_extid(c):
         return {"error": exc_class(ex)}
     res = {"id": e.id.hex(), "manifest": git_objects.extid_git_object(e).hex()}
     res["routes"] = _extid_routes(c, e)
+    if c.get("twin") and c["twin"][2] != c[c["twin"][0]]:
+        try:
+            e2 = _mk_extid(dict(c, **{c["twin"][0]: c["twin"][2]}))
+            res["twin"] = {"id": e2.id.hex(), "manifest": git_objects.extid_git_object(e2).hex(), "eq": e2 == e}
+        except Exception as ex:
+            res["twin"] = {"error": exc_class(ex)}
     try:
         d = {"extid_type": c["type"], "extid": bytes.fromhex(c["extid"]), "target": "swh:1:%s:%s" % (c["ttype"], c["tid"]),
              "payload_type": c["ptype"], "payload": None if c["payload"] is None else bytes.fromhex(c["payload"])}
@@ -1055,6 +1156,25 @@ def _routes_verdict(what, ires, c=None, us=None):
     return None
 
 
+def _twin_verdict(what, c, ires, spec):
+    """the value of one field rewritten in another Unicode normalisation form is another value: another (documented) manifest,
+    another id, an unequal object - nothing normalises text on the way to the manifest"""
+    t = ires.get("twin")
+    if t is None:
+        return None
+    f, form, val = c["twin"]
+    if "error" in t:
+        return "%s: the same object with %s in %s was rejected with %s" % (what, f, form, t["error"])
+    want = spec(dict(c, **{f: val}))
+    if bytes.fromhex(t["manifest"]) != want or t["id"] != hashlib.sha1(want).hexdigest():
+        return "%s with %s rewritten in %s: manifest / id are not the documented ones for that value" % (what, f, form)
+    if t["eq"]:
+        return "%s: an object and its %s twin (field %s) compare equal" % (what, form, f)
+    if t["manifest"] == ires["manifest"] or t["id"] == ires["id"]:
+        return "%s: an object and its %s twin (field %s: two different values) share a manifest / an id" % (what, form, f)
+    return None
+
+
 def oracle_extid(c, ires, mres):
     valid = extid_expected_valid(c)
     encodable = is_ascii(c["type"]) and (c["ptype"] is None or is_ascii(c["ptype"]))
@@ -1073,7 +1193,7 @@ def oracle_extid(c, ires, mres):
         return "ExtID manifest is not the documented header list"
     if ires["id_from_dict"] != ires["id"]:
         return "ExtID id differs between constructor and from_dict"
-    why = _routes_verdict("ExtID", ires)
+    why = _routes_verdict("ExtID", ires) or _twin_verdict("ExtID", c, ires, extid_spec_manifest)
     if why:
         return why
     # optional lines exactly when set: the keys at the start of the (non-continuation) lines
@@ -1126,7 +1246,7 @@ def oracle_emd(c, ires, mres):
         return "the same object gets another id / manifest when the machine's local zone is %s instead of %s" % (c["tz2"], c.get("tz"))
     if ires["id_variant"] != ires["id"]:
         return "authority.metadata / fetcher.metadata influence the id"
-    why = _routes_verdict("metadata object", ires, c, us)
+    why = _routes_verdict("metadata object", ires, c, us) or _twin_verdict("metadata object", c, ires, lambda d: emd_spec_manifest(d, us))
     if why:
         return why
     if ires["norm_date"] != [us - us % 10**6, 0]:
